@@ -26,6 +26,8 @@ enum OpK {
     Dup,
     Clone,
     Drop,
+    /// a dup during which the process has no descriptor left: the dup system call is refused (EMFILE)
+    DupFail,
 }
 
 impl OpK {
@@ -36,6 +38,7 @@ impl OpK {
             OpK::Dup => 'd',
             OpK::Clone => 'c',
             OpK::Drop => 'x',
+            OpK::DupFail => 'f',
         }
     }
     fn parse(c: char) -> Option<OpK> {
@@ -45,6 +48,7 @@ impl OpK {
             'd' => OpK::Dup,
             'c' => OpK::Clone,
             'x' => OpK::Drop,
+            'f' => OpK::DupFail,
             _ => return None,
         })
     }
@@ -102,6 +106,9 @@ struct Ctx {
     private_seq: RefCell<Vec<Point>>,
     pending: RefCell<Option<ResK>>,
     notes: RefCell<Vec<String>>,
+    /// the dup system call of the current operation is to be refused: the descriptor limit is lowered to 0 when the
+    /// thread is released from its FdDup point (all other threads are blocked at their points meanwhile)
+    fail_dup: Cell<bool>,
 }
 
 impl Ctx {
@@ -130,6 +137,9 @@ impl Ctx {
                 Point::FdClose(fd) => Pt::Close(fd),
             };
             self.arrive(pt);
+            if self.fail_dup.get() && matches!(pt, Pt::Dup(_)) {
+                set_nofile_soft(0);
+            }
         }
     }
 }
@@ -153,6 +163,18 @@ fn spin_recv<T>(rx: &Receiver<T>, timeout: Option<Duration>) -> Option<T> {
         Some(t) => rx.recv_timeout(t).ok(),
         None => rx.recv().ok(),
     }
+}
+
+fn nofile_soft() -> libc::rlim_t {
+    let mut r = libc::rlimit { rlim_cur: 0, rlim_max: 0 };
+    unsafe { libc::getrlimit(libc::RLIMIT_NOFILE, &mut r) };
+    r.rlim_cur
+}
+fn set_nofile_soft(cur: libc::rlim_t) {
+    let mut r = libc::rlimit { rlim_cur: 0, rlim_max: 0 };
+    unsafe { libc::getrlimit(libc::RLIMIT_NOFILE, &mut r) };
+    r.rlim_cur = cur;
+    unsafe { libc::setrlimit(libc::RLIMIT_NOFILE, &r) };
 }
 
 fn run_job(ctx: &Rc<Ctx>, prog: Vec<OpK>, handle: UnixFd) {
@@ -193,6 +215,30 @@ fn run_job(ctx: &Rc<Ctx>, prog: Vec<OpK>, handle: UnixFd) {
                     }
                 }
             },
+            OpK::DupFail => {
+                let limit = nofile_soft();
+                ctx.fail_dup.set(true);
+                let r = handles.last().expect("program owns a handle").dup();
+                ctx.fail_dup.set(false);
+                set_nofile_soft(limit);
+                match r {
+                    Ok(d) => {
+                        ctx.notes.borrow_mut().push("dup() returned a handle although the process could not get a descriptor".into());
+                        ctx.private.set(true);
+                        let n = d.get_raw_fd().unwrap_or(-1);
+                        drop(d);
+                        ctx.private.set(false);
+                        ResK::DupOk(n)
+                    }
+                    Err(e) => {
+                        if format!("{:?}", e) == "AlreadyTaken" {
+                            ResK::DupTaken
+                        } else {
+                            ResK::DupIo
+                        }
+                    }
+                }
+            }
             OpK::Clone => {
                 let c = handles.last().expect("program owns a handle").clone();
                 handles.push(c);
@@ -222,6 +268,7 @@ fn worker(tid: usize, tx: Sender<Msg>, rx: Receiver<Cmd>) {
         private_seq: RefCell::new(Vec::new()),
         pending: RefCell::new(None),
         notes: RefCell::new(Vec::new()),
+        fail_dup: Cell::new(false),
     });
     let c2 = ctx.clone();
     set_callback(Some(Box::new(move |p| c2.hook(p))));
@@ -653,7 +700,10 @@ fn check_execution(ex: &mut Exec, recs: &[OpRec], orig: i32) {
                 ex.violations.push(format!("thread {}: get returned {} which is not the original descriptor", r.tid, fd));
             }
         }
-        if r.res == ResK::DupIo {
+        if r.kind == OpK::DupFail && matches!(r.res, ResK::DupOk(_)) {
+            ex.violations.push(format!("thread {}: dup returned a handle although the system call was refused", r.tid));
+        }
+        if r.res == ResK::DupIo && r.kind != OpK::DupFail {
             ex.violations.push(format!("thread {}: dup failed with an I/O error (source descriptor not open?)", r.tid));
         }
     }
@@ -822,6 +872,7 @@ fn weight(p: &[OpK]) -> u64 {
             }
             OpK::Get => 2,
             OpK::Dup => 4,
+            OpK::DupFail => 3,
             OpK::Clone => {
                 h += 1;
                 1
@@ -902,6 +953,8 @@ fn free_running(out: &mut Out, rng: &mut Prng, threads: usize, rounds: usize) {
                         OpK::Get => {
                             let _ = h.as_ref().map(|hh| hh.get_raw_fd());
                         }
+                        // not part of the free-running menu (the descriptor limit is process-wide)
+                        OpK::DupFail => {}
                         OpK::Dup => {
                             if let Some(Ok(d)) = h.as_ref().map(|hh| hh.dup()) {
                                 extra.push(d);
@@ -1010,6 +1063,36 @@ pub fn run(cfg: &Cfg) {
             }
         }
     }
+    // ---- refused dups (EMFILE injected at the FdDup point): every program of <= 2 operations that contains a refused dup,
+    //      against every program of <= 2 ordinary operations
+    if !st.fatal && st.violating < MAX_VIOLATING {
+        let small = valid_programs(2);
+        let mut with_fail: Vec<Vec<OpK>> = vec![vec![OpK::DupFail]];
+        for op in ALL_OPS {
+            with_fail.push(vec![OpK::DupFail, op]);
+            if !matches!(op, OpK::Take | OpK::Drop) {
+                with_fail.push(vec![op, OpK::DupFail]);
+            }
+        }
+        with_fail.push(vec![OpK::DupFail, OpK::DupFail]);
+        'outerf: for pf in &with_fail {
+            for q in small.iter().chain(std::iter::once(&vec![OpK::DupFail])) {
+                let b = interleavings_bound(&[weight(pf), weight(q)]);
+                if b > cap2 {
+                    continue;
+                }
+                let programs = vec![pf.clone(), q.clone()];
+                let c = explore(&mut out, &mut st, &pool, base_fd, &programs, b);
+                sets += 1;
+                out.hit("program_sets_refused_dup");
+                out.hit_n("schedules_refused_dup", c);
+                if st.fatal || st.violating >= MAX_VIOLATING {
+                    complete = false;
+                    break 'outerf;
+                }
+            }
+        }
+    }
     // ---- 3 threads
     if !st.fatal && st.violating < MAX_VIOLATING {
         let progs3 = valid_programs(len3);
@@ -1046,7 +1129,7 @@ pub fn run(cfg: &Cfg) {
     out.hit_n("max_schedules_per_estimate_percent", st.max_ratio_pct);
     out.hit_n("program_sets", sets);
     let rule = format!(
-        "real threads under a deterministic scheduler (verif_hooks callback blocks at every FdLoad / FdCompareExchange / FdInnerDrop / FdDup / FdClose point and at every operation start; one thread runs at a time); EVERY complete interleaving (stateless DFS, programs re-run from scratch per schedule) of: all unordered pairs of borrow-valid programs of <= {} operations over take/get/dup/clone/drop (each thread starts with one clone of the handle and drops what it still owns at its end) whose static interleaving estimate is <= {}, and all unordered triples of such programs of <= {} operation(s) with estimate <= {}; one case per complete schedule (request = programs + schedule, so distinct by construction); non-trivial = some thread was preempted inside an operation; plus free-running race rounds (2 and 3 unscheduled threads released through a spin barrier on clones of a handle wrapping a pipe end; take count, taken => still open, not taken => closed, judged from the kernel's view) as a search between the hook points",
+        "real threads under a deterministic scheduler (verif_hooks callback blocks at every FdLoad / FdCompareExchange / FdInnerDrop / FdDup / FdClose point and at every operation start; one thread runs at a time); EVERY complete interleaving (stateless DFS, programs re-run from scratch per schedule) of: all unordered pairs of borrow-valid programs of <= {} operations over take/get/dup/clone/drop (each thread starts with one clone of the handle and drops what it still owns at its end) whose static interleaving estimate is <= {}, and all unordered triples of such programs of <= {} operation(s) with estimate <= {}; programs of <= 2 operations containing a REFUSED dup (EMFILE injected when the thread is released from its FdDup point) against all programs of <= 2 operations; one case per complete schedule (request = programs + schedule, so distinct by construction); non-trivial = some thread was preempted inside an operation; plus free-running race rounds (2 and 3 unscheduled threads released through a spin barrier on clones of a handle wrapping a pipe end; take count, taken => still open, not taken => closed, judged from the kernel's view) as a search between the hook points",
         len2, cap2, len3, cap3
     );
     out.finish(&rule, complete);
